@@ -82,6 +82,42 @@ func collect(f reflect.Value, name string, out *[]Child) {
 	}
 }
 
+// NilChildren lists the typed nil nodes that sit in pointer fields (and
+// slice elements) of the nodes below root: the places where an optional part
+// is absent or a failed parse left a hole.
+func NilChildren(root parser.Node) []Child {
+	var out []Child
+	for _, in := range All(root) {
+		v := reflect.ValueOf(in.Node)
+		if v.Kind() == reflect.Ptr {
+			v = v.Elem()
+		}
+		if v.Kind() != reflect.Struct {
+			continue
+		}
+		t := v.Type()
+		for i := 0; i < v.NumField(); i++ {
+			if t.Field(i).IsExported() {
+				collectNil(v.Field(i), fmt.Sprintf("%T.%s", in.Node, t.Field(i).Name), &out)
+			}
+		}
+	}
+	return out
+}
+
+func collectNil(f reflect.Value, name string, out *[]Child) {
+	switch f.Kind() {
+	case reflect.Ptr:
+		if f.IsNil() && f.Type().Implements(nodeType) {
+			*out = append(*out, Child{Node: f.Interface().(parser.Node), Field: name})
+		}
+	case reflect.Slice:
+		for i := 0; i < f.Len(); i++ {
+			collectNil(f.Index(i), fmt.Sprintf("%s[%d]", name, i), out)
+		}
+	}
+}
+
 // NamedSpan is a Span-typed field of a node.
 type NamedSpan struct {
 	Field string
